@@ -256,7 +256,7 @@ pub fn run(args: &Args, report: &mut Report) {
     } else {
         configs(thorough)
     };
-    let (n_chains, draws) = if thorough { (8, 1000) } else { (4, 1000) };
+    let (n_chains, draws) = if thorough { (16, 4000) } else { (4, 1000) };
     crate::report::par_run(report, cfgs.len() as u64, |i, rep| {
         let c = &cfgs[i as usize];
         rep.eval();
